@@ -300,6 +300,69 @@ theorem moBasis_table (cartOnly allow : Bool) (d : Obj) (m : MO) (b : Basis) (hm
 theorem fns_segment (k : Bool) (b : Basis) : fns (segment k b) = fns b := by
   simp [fns, contractions_segment]
 
+/-! ### molekel: the electron-count guard in front of the Molden body -/
+
+/-- the formats with the Molden-like body and whether they have the Cartesian-only loop -/
+def IsMoBasis (f : Fmt) : Prop := f = .molden ∨ f = .molekel ∨ f = .wfn ∨ f = .wfx
+def cartOnly : Fmt → Bool
+  | .wfn => true | .wfx => true | _ => false
+
+/-- the guard of `molekel.prepare_dump` is reached and fires -/
+def fracReject (f : Fmt) (d : Obj) : Bool :=
+  f == .molekel && (match d.mo, d.obasis with
+    | some m, some _ => m.kind != .generalized && fractionalNelec m
+    | _, _ => false)
+
+theorem fracReject_iff (f : Fmt) (d : Obj) :
+    fracReject f d = true ↔
+      f = .molekel ∧ ∃ m b, d.mo = some m ∧ d.obasis = some b ∧ m.kind ≠ .generalized ∧ fractionalNelec m = true := by
+  unfold fracReject
+  cases hm : d.mo with
+  | none => simp
+  | some m =>
+    cases hb : d.obasis with
+    | none => simp
+    | some b => simp
+
+theorem molekel_eq (allow : Bool) (d : Obj) :
+    molekel allow d =
+      if fracReject .molekel d = true then .raised .prepareDump .fractionalNelec else moBasis false allow d := by
+  unfold molekel moBasis fracReject
+  cases hm : d.mo with
+  | none => simp
+  | some m =>
+    cases hb : d.obasis with
+    | none => simp
+    | some b =>
+      by_cases hg : m.kind = .generalized
+      · simp [hg]
+      · by_cases hf : fractionalNelec m = true
+        · simp [hg, hf]
+        · simp [hg, hf]
+
+theorem prepareDump_mo (s : Bool) (f : Fmt) (hf : IsMoBasis f) (allow : Bool) (d : Obj) :
+    prepareDump s f allow d =
+      if fracReject f d = true then .raised .prepareDump .fractionalNelec else moBasis (cartOnly f) allow d := by
+  rcases hf with rfl | rfl | rfl | rfl
+  · simp [prepareDump, fracReject, cartOnly]
+  · simp only [prepareDump, cartOnly]; exact molekel_eq allow d
+  · simp [prepareDump, fracReject, cartOnly]
+  · simp [prepareDump, fracReject, cartOnly]
+
+theorem roundHalfEven_int (k : Int) : roundHalfEven (k : Rat) = k := by
+  unfold roundHalfEven
+  have hf : ((k : Rat)).floor = k := Rat.floor_intCast k
+  simp only [hf]
+  simp
+
+/-- an integer electron count is never "fractional" -/
+theorem fractionalNelec_int (m : MO) (o : List Rat) (ho : m.occs = some o) (k : Int) (hk : Orb.sum o = (k : Rat)) :
+    fractionalNelec m = false := by
+  unfold fractionalNelec nelec
+  simp only [ho, Option.map_some, hk, roundHalfEven_int]
+  simp [absR, tol1em7]
+  norm_num
+
 /-! ### the funnel of `api.dump_one` -/
 
 /-- the class of the model's exception as the API flow sees it (`Other` = any other `Exception`) -/
